@@ -74,6 +74,9 @@ func (s *Solver) Close() {
 }
 
 func (s *Solver) restart() {
+	if s.log != nil {
+		fmt.Fprintln(s.log, "(reset)")
+	}
 	if s.cmd != nil {
 		s.cmd.Process.Kill()
 		s.cmd.Wait()
@@ -150,7 +153,22 @@ func (s *Solver) readLine() (string, error) {
 }
 
 // Check runs (check-sat) under the current assertions.
-func (s *Solver) Check(timeoutMs int) Result {
+func (s *Solver) Check(timeoutMs int) (res Result) {
+	if s.log != nil {
+		// the answer is recorded next to the query, for cross-checking the
+		// session against a second solver
+		defer func() {
+			if recover_ := recover(); recover_ != nil {
+				fmt.Fprintln(s.log, "; => died")
+				panic(recover_)
+			}
+			fmt.Fprintf(s.log, "; => %s\n", [...]string{"unsat", "sat", "unknown"}[res])
+		}()
+	}
+	return s.check(timeoutMs)
+}
+
+func (s *Solver) check(timeoutMs int) Result {
 	if timeoutMs != s.timeout {
 		if s.name == "cvc5" {
 			s.send(fmt.Sprintf("(set-option :tlimit-per %d)", timeoutMs))
